@@ -1,0 +1,9 @@
+//go:build verif
+
+// Hooks for the verification harness in /verif (topic "send", C18). Add-only.
+
+package opcua
+
+// VerifSafeAssign exposes safeAssign, the typed assignment every client call
+// applies to the response handed over by the secure channel.
+func VerifSafeAssign(t, ptrT interface{}) error { return safeAssign(t, ptrT) }
